@@ -43,13 +43,13 @@ MIN_COUNTERS = {
               'clear_cases': 6, 'lock_owned_checks': 1500, 'move_cases': 6,
               'moved_while_pending': 20, 'tempo_changes_from_plain_thread': 1000,
               'map_change_cases': 12, 'cmdperiod_in_task_cases': 4,
-              'task_errors_logged': 100},
+              'task_errors_logged': 100, 'tasks_scheduled_again_after_clear': 30},
     'thorough': {'wakes_checked': 50000, 'order_pairs_checked': 5000,
                  'park_points_reached': 150, 'raising_tasks': 500,
                  'clear_cases': 40, 'lock_owned_checks': 50000, 'move_cases': 40,
                  'moved_while_pending': 500, 'tempo_changes_from_plain_thread': 20000,
                  'map_change_cases': 300, 'cmdperiod_in_task_cases': 20,
-                 'task_errors_logged': 1500},
+                 'task_errors_logged': 1500, 'tasks_scheduled_again_after_clear': 300},
 }
 
 LATE_STRESS = 6.0
@@ -1301,6 +1301,9 @@ def _case_repr(who, code, line, racing, state, nth=1):
 # clear / stop scenarios
 # ---------------------------------------------------------------------------
 
+_AGAIN_MISSED = [0]
+
+
 def run_clear(spec, acc):
     cfg = spec['shard']
     seed = derive_seed(spec['seed'], 'C08', cfg['name'])
@@ -1338,6 +1341,11 @@ def run_clear(spec, acc):
                 t.start()
             for t in ths:
                 t.join()
+            # single-shot task objects that are pending at the clear and scheduled
+            # AGAIN afterwards (the same objects): each must be awakened then
+            again = [h.do_sched(clock, 'rel', rng.choice([0.4, 0.6]), [{'ret': None}],
+                                rng.choice(['tk', 'rout']), ('thread', 'r'))
+                     for _ in range(3)]
             # some tasks that fire before the clear (they must be unaffected)
             early = [h.do_sched(clock, 'rel', 0, [{'ret': None}], 'tk', ('thread', 'e'))
                      for _ in range(3)]
@@ -1413,10 +1421,36 @@ def run_clear(spec, acc):
                 after = [h.do_sched(c2, 'rel', 0.01, [{'ret': None}], 'tk', ('thread', 'a'))
                          for c2 in (clk.SystemClock, clk.AppClock)
                          + ((clock,) if clock.running() else ())]
+            cancelled = {}
+            if ck != 'TempoClock-stop':
+                moved = [(r, h.do_move(r, rng.choice([0.02, 0.05]))) for r in again]
+                t0 = time.time()
+                # (20 s: bounded progress on any host; once a task was missed the
+                # later rounds of this shard wait 1.5 s, or the shard would not end)
+                while time.time() - t0 < (1.5 if _AGAIN_MISSED[0] else 20) and not all(
+                        any(e[2] == r['tid'] and e[0] > m['c1_seq'] for e in h.wakes())
+                        for r, m in moved):
+                    time.sleep(0.01)
+                for r, m in moved:
+                    acc.count('tasks_scheduled_again_after_clear')
+                    if m.get('error') or any(e[2] == r['tid'] and e[0] > m['c1_seq']
+                                             for e in h.wakes()):
+                        continue        # (a raising sched call is reported by analyze)
+                    if getattr(h, 'deaths', None):
+                        break           # the clock thread is gone: reported elsewhere
+                    if _AGAIN_MISSED[0] and (h.watch.overloaded or h.watch.max_oversleep > 0.5):
+                        acc.count('late_ignored_starved')
+                        continue
+                    _AGAIN_MISSED[0] += 1
+                    acc.violation(f'C08/not-woken-in-time/{ck}/scheduled-again-after-clear',
+                                  {'round': rnd, 'task': _rec_repr(r), 'waited_s': 20,
+                                   'clear': 'from-a-task' if rnd % 2 else 'from-a-thread'})
+            else:
+                for r in again:
+                    cancelled[r['tid']] = 'stopped'
             # (after a clear from a task the self-re-scheduling tasks are watched for
             # longer than the bounded-progress limit: a lost re-queue must show)
             time.sleep(0.75 if not (rnd % 2 and ck != 'TempoClock-stop') else LATE_PARK + 0.3)
-            cancelled = {}
             for r in before:
                 cancelled[r['tid']] = 'cleared'
                 late = [e for e in h.wakes() if e[2] == r['tid'] and e[0] > c1]
